@@ -71,6 +71,10 @@ def _getpid():
         caller = sys._getframe(1).f_globals.get("__name__", "")
         if caller == "toasty" or caller.startswith("toasty."):
             return fake_pid(t.proc, getattr(t.sim, "pid_mod", 0))
+        if caller == "filelock._soft" and getattr(t.sim, "multi_host", False):
+            # the identity the lock-file library writes into its markers (its fork tracking, in filelock._api, keeps
+            # the real pid): pids of other hosts do not exist here
+            return fake_pid(t.proc, 0) + 50000
     return _installed["os.getpid"]()
 
 
@@ -114,6 +118,10 @@ def _make_stat(name):
                     os.utime(path, (birth, birth))
                 except OSError:
                     pass
+        elif t is not None and isinstance(path, str):
+            lf = getattr(t.sim, "load_fault", None)
+            if lf is not None and hasattr(lf, "on_stat"):
+                lf.on_stat(path)        # a file-server hiccup makes every access to the file fail, stat included
         return _installed["os." + name](path, *a, **kw)
     fn.__name__ = name
     return fn
@@ -218,6 +226,9 @@ def _make_read_image(orig):
             fault = getattr(sim, "io_fault", None)
             if fault is not None:
                 fault("read", "%d/%d/%d" % (pos.n, pos.x, pos.y))
+            lf = getattr(sim, "load_fault", None)
+            if lf is not None and hasattr(lf, "on_read_image"):
+                lf.on_read_image(self.tile_path(pos, format=format, makedirs=False))
             hook = getattr(sim, "on_read", None)
             if hook is not None:
                 img = orig(self, pos, default=default, masked_mode=masked_mode, format=format)
@@ -305,6 +316,20 @@ def install():
 
     from toasty import image as timage
     from toasty import pyramid as tpyramid
+
+    try:
+        import filelock._soft as _fsoft
+        _real_host_name = _fsoft.host_name
+
+        def host_name():
+            t = current_task()
+            if t is not None and getattr(t.sim, "multi_host", False):
+                return "node-%s" % t.proc
+            return _real_host_name()
+
+        _fsoft.host_name = host_name
+    except (ImportError, AttributeError):
+        pass
 
     # threads started by toasty's parallel helpers (par_util.finish_queue joins the queue's feeder from a helper
     # thread): inside a simulated process they are simulated tasks of that process
